@@ -1,7 +1,7 @@
 """All contracts, by name."""
-from . import symbolic_nodes, negation, quantifiers, mappings, toplevel
+from . import symbolic_nodes, negation, quantifiers, mappings, toplevel, cache
 
-MODULES = [symbolic_nodes, negation, quantifiers, mappings, toplevel]
+MODULES = [symbolic_nodes, negation, quantifiers, mappings, toplevel, cache]
 
 
 def all_contracts():
